@@ -17,6 +17,10 @@ import time
 import traceback
 
 sys.path.insert(0, "/verif")
+# the tree under check (default: /repo's working tree). VERIF_REPO_SRC is only meant for trying a scratch worktree.
+REPO_SRC = os.environ.get("VERIF_REPO_SRC", "/repo/src")
+sys.path.insert(0, REPO_SRC)
+os.environ["PYTHONPATH"] = REPO_SRC + os.pathsep + "/verif" + (os.pathsep + os.environ["PYTHONPATH"] if os.environ.get("PYTHONPATH") else "")
 os.environ.setdefault("OMP_NUM_THREADS", "1")
 os.environ.setdefault("MKL_NUM_THREADS", "1")
 
